@@ -31,6 +31,9 @@ import sys
 sys.path.insert(0, os.path.dirname(os.path.abspath(__file__)))
 import astutil_G1 as U  # noqa: E402
 
+# the plug-in and its helpers are inputs too: a change of either regenerates the file
+SELF = ["../verif-self:tools/gen/importconsts.py", "../verif-self:tools/gen/astutil_G1.py"]
+
 from translate import TranslateError, generator, txt, HEADER, rat  # noqa: E402
 
 SRC = "osaca/db_interface.py"
@@ -105,13 +108,7 @@ def _m_compare(c, m):
     return l, op
 
 
-def _disjuncts(t):
-    if isinstance(t, ast.BoolOp) and isinstance(t.op, ast.Or):
-        out = []
-        for v in t.values:
-            out.extend(_disjuncts(v))
-        return out
-    return [t]
+_disjuncts = U.disjuncts
 
 
 # --------------------------------------------------------------------------- _validate_measurement
@@ -414,7 +411,10 @@ def _asmbench(mod):
     if dec is None:
         raise TranslateError("%s: malformed-block test not found" % W)
     test, then, other = dec
-    if not any(isinstance(s, ast.Break) for s in then):
+    pol = True
+    if any(isinstance(s, ast.Break) for s in other) and not any(isinstance(s, ast.Break) for s in then):
+        then, other, pol = other, then, False       # `if not malformed: <entry> else: <complain>; break`
+    if not any(isinstance(s, ast.Break) for s in then) or any(isinstance(s, ast.Break) for s in other):
         raise TranslateError("%s: malformed-block test not found" % W)
 
     def index_off(s):
@@ -454,7 +454,7 @@ def _asmbench(mod):
         return None
 
     guard, blank = False, None
-    ds = _disjuncts(test)
+    ds = _disjuncts(test, pol)
     if len(ds) == 2:
         g, t2 = ds
         blank = blank_test(t2)
@@ -472,7 +472,7 @@ def _asmbench(mod):
             raise TranslateError("%s: unknown guard in the malformed-block test" % W)
         guard = True
     elif len(ds) == 1:
-        blank = blank_test(test)
+        blank = blank_test(ds[0])
     if blank is None:
         raise TranslateError("%s: blank-line test not found" % W)
     offs = {}
@@ -529,6 +529,15 @@ def _has_test(sc, t, P):
     return None
 
 
+def _const_slice(sc, n, P):
+    """`operand[a:b]` with constant natural bounds -> (a, b), else None"""
+    if isinstance(n, ast.Subscript) and isinstance(n.slice, ast.Slice) and _is_name(n.value, P) \
+            and n.slice.lower is not None and n.slice.upper is not None \
+            and (n.slice.step is None or sc.try_ev(n.slice.step) in ((True, 1), (True, None))):
+        return _nat(sc, n.slice.lower, "slice"), _nat(sc, n.slice.upper, "slice")
+    return None
+
+
 def _val(sc, n, P):
     """Lean term (constructor of Import.VExpr) for a dict value expression."""
     ok, v = sc.try_ev(n)
@@ -551,11 +560,9 @@ def _val(sc, n, P):
                 l, r = r, l
             l = sc.deref(l)
             yes, no = (n.body, n.orelse) if pol else (n.orelse, n.body)     # `yes`: the slice is ""
-            if isinstance(l, ast.Subscript) and sc.try_ev(r) == (True, "") and U.same(l, sc.deref(no)) \
-                    and isinstance(l.slice, ast.Slice) and l.slice.step is None and _is_name(l.value, P) \
-                    and l.slice.lower is not None and l.slice.upper is not None:
-                return "(.sliceOr %d %d %s)" % (_nat(sc, l.slice.lower, "slice"), _nat(sc, l.slice.upper, "slice"),
-                                                txt(sc.ev_str(yes, "slice default")))
+            sl = _const_slice(sc, l, P)
+            if sl is not None and sc.try_ev(r) == (True, "") and _const_slice(sc, sc.deref(no), P) == sl:
+                return "(.sliceOr %d %d %s)" % (sl[0], sl[1], txt(sc.ev_str(yes, "slice default")))
     h = _has_test(sc, n, P)
     if h is not None:        # the bare test is the bool `True if c in operand else False`
         return "(.ifHas %s %s %s)" % (txt(h[0]), _lit(h[1]), _lit(not h[1]))
@@ -606,6 +613,11 @@ def _decoder(mod, name):
             break
         if not isinstance(node, ast.If):
             raise TranslateError("%s: body is not one if/elif chain" % name)
+        t, pol = U.strip_not(node.test)
+        if not pol:                  # `if not c: <rest> else: return {...}`
+            if not node.orelse:
+                raise TranslateError("%s: negated test without else (line %d)" % (name, node.lineno))
+            node = ast.copy_location(ast.If(test=t, body=node.orelse, orelse=node.body), node)
         d = sc.deref(node.body[0].value) if len(node.body) == 1 and isinstance(node.body[0], ast.Return) \
             and node.body[0].value is not None else None
         if not isinstance(d, ast.Dict):
@@ -643,7 +655,7 @@ def _isa_dispatch(mod):
         raise TranslateError("_create_db_operand: isa dispatch changed: %r" % out)
 
 
-@generator("ImportConsts", [SRC])
+@generator("ImportConsts", [SRC] + SELF)
 def gen_importconsts():
     U.reset_cache()
     mod = U.mod_scope(SRC)
